@@ -20,6 +20,10 @@ def run(ctx):
     if not q:
         ctx.model_check("Transport", "selftest_no_close", constants=dict(MaxRetries=3, Timeouts="{2}", PinNoFinallyClose=True),
                         invariants=["NoSocketLeftOpen"], expect=["NoSocketLeftOpen"])
+    # any number of retries (unbounded integers), nondeterministic outcome per attempt: inductive invariant (Apalache)
+    import framework, os
+    framework.apalache_inductive(ctx, os.path.join(framework.VERIF, "spec", "apalache", "TransportInd.tla"),
+                                 implied=["NoSocketLeftOpen", "BoundedRetries", "TimeoutExactly", "TimeoutAtRetriesTimesTimeout"])
     rnd = random.Random(ctx.seed)
     T = []
     tails = [b"", b"\x00", b"\x00\x00\x00", b"\x05\x00", b"\x82\x00"]
